@@ -35,17 +35,17 @@ fn run(api: &str, ctx: &[i64], v: i64) -> R {
     let vu: usize = if huge { usize::MAX } else { v as usize };
     match api {
         "VlanId" => match VlanId::try_new(if huge { u16::MAX } else { v as u16 }) {
-            Ok(x) => R::ok(if VlanId::try_from(v as u16).map(|y| y == x).unwrap_or(false) { x.value() as i64 } else { -7 }),
+            Ok(x) => R::ok(if VlanId::try_from(v as u16).map(|y| y == x).unwrap_or(false) && u16::from(x) == x.value() { x.value() as i64 } else { -7 }),
             Err(e) => R { ok: false, kind: "ValueTooBig", actual: e.actual as i64, max: e.max_allowed as i64, enc: -1, unchanged: b2i(VlanId::try_from(v as u16).is_err()) },
         },
         "IpFragOffset" => match IpFragOffset::try_new(if huge { u16::MAX } else { v as u16 }) {
-            Ok(x) => R::ok(if IpFragOffset::try_from(v as u16).map(|y| y == x).unwrap_or(false) { x.value() as i64 } else { -7 }),
+            Ok(x) => R::ok(if IpFragOffset::try_from(v as u16).map(|y| y == x).unwrap_or(false) && u16::from(x) == x.value() { x.value() as i64 } else { -7 }),
             Err(e) => R { ok: false, kind: "ValueTooBig", actual: e.actual as i64, max: e.max_allowed as i64, enc: -1, unchanged: b2i(IpFragOffset::try_from(v as u16).is_err()) },
         },
         "Ipv6FlowLabel" => {
             let a: u32 = if huge { u32::MAX } else { v as u32 };
             match Ipv6FlowLabel::try_new(a) {
-                Ok(x) => R::ok(if Ipv6FlowLabel::try_from(a).map(|y| y == x).unwrap_or(false) { x.value() as i64 } else { -7 }),
+                Ok(x) => R::ok(if Ipv6FlowLabel::try_from(a).map(|y| y == x).unwrap_or(false) && u32::from(x) == x.value() { x.value() as i64 } else { -7 }),
                 Err(e) => R { ok: false, kind: "ValueTooBig", actual: cap(e.actual as i64), max: e.max_allowed as i64, enc: -1, unchanged: b2i(Ipv6FlowLabel::try_from(a).is_err()) },
             }
         }
@@ -54,7 +54,7 @@ fn run(api: &str, ctx: &[i64], v: i64) -> R {
             macro_rules! nt {
                 ($t:ty) => {
                     match <$t>::try_new(a) {
-                        Ok(x) => R::ok(if <$t>::try_from(a).map(|y| y == x).unwrap_or(false) { x.value() as i64 } else { -7 }),
+                        Ok(x) => R::ok(if <$t>::try_from(a).map(|y| y == x).unwrap_or(false) && u8::from(x) == x.value() { x.value() as i64 } else { -7 }),
                         Err(e) => R { ok: false, kind: "ValueTooBig", actual: e.actual as i64, max: e.max_allowed as i64, enc: -1, unchanged: b2i(<$t>::try_from(a).is_err()) },
                     }
                 };
@@ -66,8 +66,8 @@ fn run(api: &str, ctx: &[i64], v: i64) -> R {
                 "MacsecAn" => nt!(MacsecAn),
                 "Qrv" => nt!(igmp::Qrv),
                 _ => match MacsecShortLen::try_from(a) {
-                    Ok(x) => R::ok(x.value() as i64),
-                    Err(e) => R { ok: false, kind: "ValueTooBig", actual: e.actual as i64, max: e.max_allowed as i64, enc: -1, unchanged: 1 },
+                    Ok(x) => R::ok(if MacsecShortLen::try_from_u8(a).map(|y| y == x).unwrap_or(false) && u8::from(x) == x.value() { x.value() as i64 } else { -7 }),
+                    Err(e) => R { ok: false, kind: "ValueTooBig", actual: e.actual as i64, max: e.max_allowed as i64, enc: -1, unchanged: b2i(MacsecShortLen::try_from_u8(a) == Err(e)) },
                 },
             }
         }
@@ -253,6 +253,71 @@ fn run(api: &str, ctx: &[i64], v: i64) -> R {
                     let _ = format!("{} {:?}", e, e);
                     R::err("ArpAddrTooBig", vu, -1)
                 }
+            }
+        }
+        "arp.set_hw_addrs" | "arp.set_protocol_addrs" => {
+            let mut p = ArpPacket::new(ArpHardwareId(1), EtherType(0x0800), ArpOperation(1), &[1; 6], &[2; 4], &[3; 6], &[4; 4]).unwrap();
+            let before = p.clone();
+            let a = vec![0x5Au8; vu];
+            let b = vec![0xA5u8; (v + ctx[0]) as usize];
+            if api == "arp.set_hw_addrs" {
+                match p.set_hw_addrs(&a, &b) {
+                    Ok(()) => {
+                        let by = p.to_bytes();
+                        let good = p.sender_hw_addr() == &a[..] && p.target_hw_addr() == &b[..] && p.sender_protocol_addr() == [2; 4] && p.target_protocol_addr() == [4; 4]
+                            && by.len() == 8 + 2 * vu + 8 && by[8..8 + vu] == a[..] && by[8 + vu + 4..8 + 2 * vu + 4] == b[..];
+                        R::ok(if good { by[4] as i64 } else { -7 })
+                    }
+                    Err(e) => {
+                        let _ = format!("{} {:?}", e, e);
+                        match e {
+                            err::arp::ArpHwAddrError::LenNonMatching(x, y) => R { ok: false, kind: "LenNonMatching", actual: x as i64, max: y as i64, enc: -1, unchanged: b2i(p == before) },
+                            err::arp::ArpHwAddrError::LenTooBig(x) => R::err("LenTooBig", x, b2i(p == before)),
+                        }
+                    }
+                }
+            } else {
+                match p.set_protocol_addrs(&a, &b) {
+                    Ok(()) => {
+                        let by = p.to_bytes();
+                        let good = p.sender_protocol_addr() == &a[..] && p.target_protocol_addr() == &b[..] && p.sender_hw_addr() == [1; 6] && p.target_hw_addr() == [3; 6]
+                            && by.len() == 8 + 12 + 2 * vu && by[14..14 + vu] == a[..] && by[14 + vu + 6..] == b[..];
+                        R::ok(if good { by[5] as i64 } else { -7 })
+                    }
+                    Err(e) => {
+                        let _ = format!("{} {:?}", e, e);
+                        match e {
+                            err::arp::ArpProtoAddrError::LenNonMatching(x, y) => R { ok: false, kind: "LenNonMatching", actual: x as i64, max: y as i64, enc: -1, unchanged: b2i(p == before) },
+                            err::arp::ArpProtoAddrError::LenTooBig(x) => R::err("LenTooBig", x, b2i(p == before)),
+                        }
+                    }
+                }
+            }
+        }
+        "macsec.short_len.from_len" => R::ok(MacsecShortLen::from_len(vu).value() as i64),
+        "ipv6.set_dscp" | "ipv6.set_ecn" => {
+            let mut h = Ipv6Header { traffic_class: ctx[0] as u8, flow_label: Ipv6FlowLabel::try_new(0xF_FFFF).unwrap(), payload_length: 0xFFFF, next_header: IpNumber(255), hop_limit: 255, source: [255; 16], destination: [255; 16] };
+            let before = h.clone();
+            if api == "ipv6.set_dscp" {
+                h.set_dscp(IpDscp::try_new(v as u8).unwrap());
+            } else {
+                h.set_ecn(IpEcn::try_new(v as u8).unwrap());
+            }
+            // the getters decode the octet, nothing else in the header moves
+            let good = h.dscp().value() == h.traffic_class >> 2 && h.ecn().value() == h.traffic_class & 3
+                && Ipv6Header { traffic_class: before.traffic_class, ..h.clone() } == before;
+            // the octet as it is encoded (version nibble | traffic class | flow label)
+            let by = h.to_bytes();
+            R::ok(if good { (((by[0] & 0x0f) << 4) | (by[1] >> 4)) as i64 } else { -7 })
+        }
+        "ipv4.payload_len" => {
+            let mut h = Ipv4Header::new(0, 4, IpNumber(17), [1; 4], [2; 4]).unwrap();
+            h.options = vec![1u8; ctx[0] as usize].as_slice().try_into().unwrap();
+            h.total_len = v as u16;
+            match h.payload_len() {
+                Ok(x) => R::ok(x as i64),
+                Err(e) => R { ok: false, kind: "LenError", actual: e.required_len as i64, max: e.len as i64, enc: -1,
+                              unchanged: b2i(e.len_source == LenSource::Ipv4HeaderTotalLen && e.layer == err::Layer::Ipv4Packet && e.layer_start_offset == 0) },
             }
         }
         other => panic!("unknown api {}", other),
